@@ -262,12 +262,16 @@ func (d *Driver) Close() error {
 		d.Transport.Args.Port,
 	)
 
+	verifYield("nclose.enter")
+
 	// close rather than send: the read loop may be waiting to hand an error to an rpc (after the
 	// peer went away there is nobody to take it), may have never been started, or may already have
 	// been stopped by an earlier Close -- a send would block forever in all of these cases.
 	d.closeOnce.Do(func() {
 		close(d.done)
 	})
+
+	verifYield("nclose.post_done")
 
 	err := d.Channel.Close()
 	if err != nil {
